@@ -51,6 +51,7 @@ type Explorer struct {
 	Paths, Aborted, Infeasible int
 	Asserts, AssertQueries     int
 	Violations                 []Violation
+	HangIsViolation            bool
 	KnownRegions               map[string]bool // region names listed as status=known for this unit
 	regions                    []region        // regions declared on the current path
 	Params                     map[string]int
@@ -133,7 +134,12 @@ func (e *Explorer) runOnce(body func()) {
 					e.Infeasible++
 				} else {
 					e.Aborted++
-					if r.reason != "assert-always-fails" {
+					if e.HangIsViolation && strings.HasPrefix(r.reason, "limit:") {
+						// the property includes termination: a path that exceeds the step or
+						// decision bound is a violation candidate (replayed natively under a timeout)
+						e.PathsWithViolation++
+						e.check(mkBool(true), "nontermination: "+r.reason)
+					} else if r.reason != "assert-always-fails" {
 						// unsupported construct, exceeded bound (unwinding), engine defect: the
 						// path was not explored to its end, so the run is not a pass
 						e.Unsupported[r.reason]++
